@@ -52,6 +52,14 @@ HARNESSES = [
     ('k_text_2', 'messages/parsers.rs', ['C13', 'C01'], 'bounded', 'parse_6bit_ascii: 2 characters, every bit offset, all contents', 'quick', 900),
     ('k_text_3', 'messages/parsers.rs', ['C13', 'C01'], 'bounded', 'parse_6bit_ascii: 3 characters, every bit offset, all contents', 'thorough', 3000),
 ]
+NOALLOC = [
+    ('k_na_unarmor_0', 'messages/mod.rs', ['C18'], 'bounded', 'no-allocator unarmor, 0 characters', 'quick', 600),
+    ('k_na_unarmor_3', 'messages/mod.rs', ['C18'], 'bounded', 'no-allocator unarmor, 3 characters, all contents and fill counts, vs the same reference as the std build', 'quick', 600),
+    ('k_na_unarmor_5', 'messages/mod.rs', ['C18'], 'bounded', 'no-allocator unarmor, 5 characters', 'quick', 600),
+    ('k_na_unarmor_8', 'messages/mod.rs', ['C18'], 'bounded', 'no-allocator unarmor, 8 characters', 'thorough', 900),
+    ('k_na_text_21', 'messages/mod.rs', ['C18', 'C01'], 'bounded', 'no-allocator text capacity: 21 characters is an error (not a panic), 20 is accepted; one concrete input', 'quick', 600),
+]
+
 for _n, _unw in [(0, 'quick'), (1, 'quick'), (2, 'quick'), (3, 'quick'), (4, 'quick'), (5, 'quick'), (6, 'quick'), (7, 'quick'), (8, 'quick'), (9, 'quick'), (12, 'quick'), (16, 'quick')]:
     HARNESSES.append(('k_unarmor_%d' % _n, 'messages/mod.rs', ['C03', 'C01'], 'bounded',
                       'unarmor: %d characters, all contents, fill 0..=5, every output bit against the reference packing' % _n, _unw, 900))
@@ -65,9 +73,9 @@ def log_null(_):
     pass
 
 
-def _fragments():
+def _fragments(variant='std'):
     out = {}
-    d = os.path.join(ROOT, 'kani')
+    d = os.path.join(ROOT, 'kani') if variant == 'std' else os.path.join(ROOT, 'kani', variant)
     for f in sorted(os.listdir(d)):
         if f.endswith('.rs'):
             out[f] = open(os.path.join(d, f)).read()
@@ -75,10 +83,10 @@ def _fragments():
 
 
 FRAG_TARGET = {'parsers.rs': 'messages/parsers.rs', 'navigation.rs': 'messages/navigation.rs', 'types.rs': 'messages/types.rs',
-               'sentence.rs': 'sentence.rs', 'mod.rs': 'messages/mod.rs', 'shimval.rs': 'lib.rs', 'radio_status.rs': 'messages/radio_status.rs'}
+               'sentence.rs': 'sentence.rs', 'mod.rs': 'messages/mod.rs', 'shimval.rs': 'lib.rs', 'radio_status.rs': 'messages/radio_status.rs', 'bin_aisparser.rs': 'bin/aisparser.rs', 'layout.rs': 'lib.rs'}
 
 
-def prepare_crate(work, features_default=True):
+def prepare_crate(work, variant='std'):
     kc = os.path.join(work, 'kcrate')
     if os.path.exists(kc):
         shutil.rmtree(kc)
@@ -88,7 +96,11 @@ def prepare_crate(work, features_default=True):
         shutil.copy(os.path.join(REPO, f), os.path.join(kc, f))
     os.makedirs(os.path.join(kc, '.cargo'))
     open(os.path.join(kc, '.cargo', 'config.toml'), 'w').write('[net]\noffline = true\n')
-    for frag, text in _fragments().items():
+    frs = _fragments(variant)
+    if variant == 'std':
+        import klayout
+        frs['layout.rs'] = klayout.generate()
+    for frag, text in frs.items():
         tgt = FRAG_TARGET.get(frag)
         if not tgt:
             continue
@@ -107,10 +119,11 @@ def tree_hash(kc):
     return h.hexdigest()
 
 
-def run_harnesses(names, work, log, extra_args=(), timeout=1200, jobs=8):
+def run_harnesses(names, work, log, extra_args=(), timeout=1200, jobs=8, target='--lib'):
     """one cargo-kani invocation for several harnesses; returns {name: dict(status, time_s, output)}"""
-    kc = prepare_crate(work)
-    key = hashlib.sha256((tree_hash(kc) + ' '.join(sorted(names)) + ' '.join(extra_args)).encode()).hexdigest()
+    variant = 'noalloc' if '--no-default-features' in extra_args else 'std'
+    kc = prepare_crate(work, variant)
+    key = hashlib.sha256((tree_hash(kc) + ' '.join(sorted(names)) + ' '.join(extra_args) + target).encode()).hexdigest()
     cp = os.path.join(CACHE, 'kani-' + key + '.json')
     if os.path.exists(cp) and not os.environ.get('VERIF_NO_CACHE'):
         log('kani: cached result (%s)' % key[:12])
@@ -118,7 +131,7 @@ def run_harnesses(names, work, log, extra_args=(), timeout=1200, jobs=8):
         for v in d.values():
             v['cached'] = True
         return d
-    cmd = ['cargo', 'kani', '--lib', '-Z', 'function-contracts', '-Z', 'stubbing', '-j', str(jobs), '--output-format', 'terse'] + list(extra_args)
+    cmd = ['cargo', 'kani'] + target.split() + ['-Z', 'function-contracts', '-Z', 'stubbing', '-j', str(jobs), '--output-format', 'terse'] + list(extra_args)
     for n in names:
         cmd += ['--harness', n]
     env = dict(os.environ, CARGO_NET_OFFLINE='true', CARGO_TARGET_DIR=os.path.join(work, 'ktarget'))
@@ -192,11 +205,17 @@ def run_harnesses(names, work, log, extra_args=(), timeout=1200, jobs=8):
 
 
 def run_for_property(prop, tier, work, log):
+    if prop == 'C18':
+        return _run_sel([h for h in NOALLOC if h[5] == 'quick' or tier == 'thorough'], work, log, extra_args=['--no-default-features'])
     sel = [h for h in HARNESSES if (prop in h[2] or (h[3] == 'shimval' and prop in SHIM_PROPS)) and (h[5] == 'quick' or tier == 'thorough')]
+    return _run_sel(sel, work, log)
+
+
+def _run_sel(sel, work, log, extra_args=()):
     out = dict(obligations=[], discharged=[], failures=[], undecided=[], bounded=[], backend=None, shimval=[])
     if not sel:
         return out
-    res = run_harnesses([h[0] for h in sel], work, log, timeout=max(h[6] for h in sel) + 600)
+    res = run_harnesses([h[0] for h in sel], work, log, timeout=max(h[6] for h in sel) + 600, extra_args=extra_args)
     total = 0.0
     for (name, f, props, kind, domain, _tier, _to) in sel:
         r = res.get(name, dict(status='unknown', output=''))
@@ -225,4 +244,24 @@ def run_for_property(prop, tier, work, log):
             out['undecided'].append('%s: %s\n%s' % (ob[0], r['status'], r.get('output', '')[-600:]))
     out['backend'] = dict(harnesses=len(sel), solver_s=round(total, 2), from_cache=any(r.get('cached') for r in res.values()),
                           results={n: res[n]['status'] for n in res})
+    return out
+
+
+def layout_fallback(relpaths, work, log):
+    """run the generated per-type layout harnesses for the given message files, one at a time with concrete playback;
+    returns {relpath: dict(harness, status, bytes or None, output)}"""
+    import klayout
+    out = {}
+    for (name, rel, domain) in klayout.harness_table():
+        if rel not in relpaths:
+            continue
+        res = run_harnesses([name], os.path.join(work, 'kfb'), log, timeout=1800, jobs=1, extra_args=['-Z', 'concrete-playback', '--concrete-playback=print'])
+        r = res[name]
+        vals = None
+        if r['status'] == 'failed':
+            m = re.search(r'let concrete_vals: Vec<Vec<u8>> = vec!\[(.*?)\];', r['output'], re.S)
+            if m:
+                vals = [int(x) for x in re.findall(r'vec!\[(\d+)\]', m.group(1))]
+        failed_checks = re.findall(r'Failed Checks: (.*)', r['output'])
+        out[rel] = dict(harness=name, status=r['status'], bytes=vals, domain=domain, failed_checks=failed_checks[:5], output=r['output'][-2500:])
     return out
